@@ -50,6 +50,7 @@ class Run:
         class HSched(ActionScheduler):
             def default_action(self, obj, time, new_state):
                 run.calls.append(('default', obj, (obj, time, new_state)))
+                run.state_seen_in_action(self.current_state, new_state, time)
 
         self.calls = []
         self.failed = False
@@ -88,6 +89,14 @@ class Run:
 
     def override(self, sched, obj, time, state):
         self.calls.append(('override', obj, (sched, obj, time, state)))
+        self.state_seen_in_action(sched.current_state, state, time)
+
+    def state_seen_in_action(self, current, new_state, time):
+        # the state of the scheduler at any time is the state the timetable prescribes - also for code that
+        # asks from inside an action
+        if not (current is new_state or current == new_state):
+            self.fail('current_state', f'inside an action at {time!r} the scheduler announces state {new_state!r} but '
+                      f'its current_state is {current!r}')
 
     def do_reg(self, op, midrun):
         if self.sched is None:
